@@ -6,6 +6,7 @@ import (
 	"image"
 	"os"
 	"path/filepath"
+	"strings"
 	"time"
 
 	webp "github.com/deepteams/webp"
@@ -69,6 +70,11 @@ func rewrap(data []byte, before, after [][]byte, flags byte) []byte {
 // thorough tier and by their replays, which look files up by name).
 var corpusThorough bool
 
+// corpusMenus adds every single-menu-deviation file of the generators (not the coefficient
+// product) also in the quick tier: cheap for the checks that only read headers or cut
+// prefixes (C16, C17), too many seeds for C05's per-byte mutation.
+var corpusMenus bool
+
 // stillCorpus returns the valid still files used by C17 (every prefix) and as
 // seeds by C05 and C16.  All are small so that per-byte enumeration is exhaustive.
 func stillCorpus(seed int64, repo string) []namedFile {
@@ -117,12 +123,12 @@ func stillCorpus(seed int64, repo string) []namedFile {
 	add("hand-lossless-vp8x", rewrap(mustEncode(imgs.Make(9, 9, "c4", "binary", seed), &webp.EncoderOptions{Lossless: true, Quality: 75, Method: 4}), nil, nil, 0))
 	// generator-made files: valid streams no encoder emits (every 3rd VP8L file, every 8th key frame)
 	for i, f := range genCorpus(seed) {
-		if i%3 == 0 || corpusThorough {
+		if i%3 == 0 || corpusThorough || corpusMenus {
 			out = append(out, f)
 		}
 	}
 	for i, f := range vp8Corpus(seed) {
-		if i%8 == 0 || corpusThorough {
+		if i%8 == 0 || corpusThorough || corpusMenus && !strings.Contains(f.Name, "coeffs") {
 			out = append(out, f)
 		}
 	}
@@ -231,9 +237,10 @@ func genCorpus(seed int64) []namedFile {
 			add(fmt.Sprintf("%s-cache%d", dn, c), presetPicker{"dims": di, "main-cache": c})
 		}
 	}
-	for m := 1; m <= 4; m++ {
+	for m := 1; m <= 6; m++ {
 		add(fmt.Sprintf("9x4-meta%d", m), presetPicker{"dims": 9, "meta": m, "main-cache": 5})
 	}
+	add("8x8-meta5", presetPicker{"dims": 8, "meta": 5})
 	for sh := 1; sh <= 4; sh++ {
 		add(fmt.Sprintf("9x4-shape%d", sh), presetPicker{"dims": 9, "main-code-shape": sh, "main-copies": 3})
 	}
@@ -269,7 +276,7 @@ func vp8Corpus(seed int64) []namedFile {
 		label string
 		n     int
 	}{{"qbase", 6}, {"qdelta-y1dc", 4}, {"qdelta-y2dc", 4}, {"qdelta-y2ac", 4}, {"qdelta-uvdc", 4}, {"qdelta-uvac", 4}, {"segments", 5},
-		{"filter-level", 5}, {"filter-simple", 2}, {"sharpness", 3}, {"lf-delta", 3}, {"partitions", 4}, {"ymode", 8}, {"submode", 11}, {"uvmode", 5}, {"skip", 4}, {"prob-updates", 4}, {"zero-spelling", 3}}
+		{"filter-level", 5}, {"filter-simple", 2}, {"sharpness", 3}, {"lf-delta", 3}, {"partitions", 4}, {"ymode", 8}, {"submode", 11}, {"uvmode", 5}, {"skip", 4}, {"prob-updates", 4}, {"zero-spelling", 3}, {"hscale", 4}, {"vscale", 4}}
 	add("base", vp8Preset{"dims": 4, "coeffs": 7})
 	for _, mn := range menus {
 		label, n := mn.label, mn.n
